@@ -64,7 +64,8 @@ def run(chk, st, tier):
         w = r["w"]
         want = [x for b in w.batches() for x in b]
         ri = r.get("read_impl")
-        if r["file"] is None or not r["validate"] or not r["validate"]["valid"] or not ri or ri["status"] != "OK" or ri.get("recs", "").split() != " ".join(want).split():
+        # (validity of the file is C02's question; a file its own reader reads but the regenerated reader does not is C15's)
+        if r["file"] is None or not ri or ri["status"] != "OK" or ri.get("recs", "").split() != " ".join(want).split():
             skipped += 1          # the generated code for this shape is itself broken: reported by C05
             continue
         usable.append((w, r["file"], want))
